@@ -66,7 +66,9 @@ def witness_search(tier, seed):
     texts = ["#TITLE;#ARTIST:x;", "#title:a;#TITLE:b;#Attacks:x:y;#DISPLAYBPM;#NOTES:a:b:c:d:e:f:g:h;#SUBTITLE:late;",
              "stray\n#VERSION:0.83;#TITLE:t;//c\n#NOTEDATA:;#credit:;#NOTES:0000;#AFTER:x;#NOTEDATA:;#NOTES2:11;",
              "#A:1\n#B:2;", "#ATTACKS;", "#VERSION:1;#NOTEDATA:;#ATTACKS:a:b;#DISPLAYBPM;#NOTES:;",
-             "#VERSION:0.83;#NOTEDATA:;#STEPSTYPE:x;#NOTES2:0001;#CREDIT:c;#NOTES:1000;#NOTEDATA:;#NOTES2:11;#AFTER:z;"]
+             "#VERSION:0.83;#NOTEDATA:;#STEPSTYPE:x;#NOTES2:0001;#CREDIT:c;#NOTES:1000;#NOTEDATA:;#NOTES2:11;#AFTER:z;",
+             # a blank / key-only NOTES beside a populated NOTES2, in both orders
+             "#VERSION:0.83;#NOTEDATA:;#STEPSTYPE:x;#NOTES:;#NOTES2:0001\n1000;", "#VERSION:0.83;#NOTEDATA:;#NOTES2:0001;#CREDIT:c;#NOTES;"]
     # values that need MSD escapes (backslash, ':' ';' and '//' inside note data and ordinary values), written by msdparser itself
     from msdparser import MSDParameter
     esc = "dr\\ums:k;i//ck"
